@@ -6,7 +6,7 @@
 (* real ParseArgs did.  Mismatches are collected per property, never       *)
 (* blocking, so one rejection does not hide the rest of the trace.         *)
 (***************************************************************************)
-EXTENDS ArgParse, FTab, Json, IOUtils
+EXTENDS Spelling, FTab, Json, IOUtils
 
 VARIABLES l, bad, stat, j
 
@@ -79,36 +79,20 @@ J09(f, o) == Dom(f, o) =>
 J10(f, o) == (Dom(f, o) /\ SpecOk(f)) => (o.ok /\ PosEq(f, o) /\ o.retargs = f.retargs)
 
 \* --- C02: the two spellings give the same outcome (and each equals the specification's)
+\* admissible for the value as written in either vector (the exhaustive pair model writes it raw in one, quoted in the other)
+Adm2(f, rec) == /\ Admissible(f, rec.altInfo, rec.popts)
+                /\ rec.altInfo.has2 => Admissible(f, [rec.altInfo EXCEPT !.value = rec.altInfo.value2], rec.popts)
+
 Outcome(o) == [ok |-> o.ok, t |-> ObsErrT(o), values |-> o.values, pos |-> o.pos, retargs |-> IF o.ok THEN o.retargs ELSE <<>>,
                chain |-> o.chain, calls |-> Calls(o.events)]
 SpecOutcomeEq(f, o) == /\ SpecOk(f) <=> o.ok
                        /\ f.err.t = ObsErrT(o)
                        /\ SpecOk(f) => (ValuesEq(f, o) /\ PosEq(f, o) /\ o.retargs = f.retargs /\ Calls(o.events) = Calls(f.events))
 
-\* admissibility of the pair, from the documentation (see DESIGN 5.2): computed by the generator-independent
-\* predicate below from the option and the value
-OptionLike(v) == IsOption(v)
-Admissible(f, rec) ==
-  LET ai == rec.altInfo
-      od == f.opts[ai.opt]
-      v == ai.value
-      sepUsed == ai.from \in {"s-sep", "l-sep"} \/ ai.to \in {"s-sep", "l-sep"}
-      concatUsed == ai.from = "s-concat" \/ ai.to = "s-concat"
-  IN /\ ~od.validator
-     \* both names must denote this option wherever they are used: no other declaration shares them
-     /\ \A p \in 1..Len(f.opts) : p # ai.opt =>
-            (/\ (od.short = 0 \/ f.opts[p].short # od.short)
-             /\ (od.long = E \/ f.nsLong[p] # f.nsLong[ai.opt]))
-     /\ sepUsed => (/\ ~od.optional
-                    /\ ~(OptionLike(v) /\ ~(SignedNumber(od) /\ NegNumberLike(v)))
-                    /\ ~(InSeq(rec.popts, "PassDoubleDash") /\ v = <<DASH, DASH>>))
-     \* grammar collisions no parser can avoid: -xV with V empty is the bare -x; -xV with V starting '=' is -x=V'
-     /\ concatUsed => (v # E /\ v[1] # EQ)
-
 J02(rec, f, o) ==
   IF ~("alt" \in DOMAIN rec) \/ ~("altInfo" \in DOMAIN rec) \/ ~("obsAlt" \in DOMAIN rec) THEN TRUE
   ELSE LET fa == Final(rec, rec.alt) IN
-       (/\ Dom(f, o) /\ ~fa.grey /\ ~Crashed(rec.obsAlt) /\ Admissible(f, rec)
+       (/\ Dom(f, o) /\ ~fa.grey /\ ~Crashed(rec.obsAlt) /\ Adm2(f, rec)
         \* the occurrence must be one: the token is parsed as an option in both vectors (not passed through)
         /\ ~f.hmod /\ ~fa.hmod /\ f.role[rec.altInfo.pos] = "option" /\ fa.role[rec.altInfo.pos] = "option") =>
            (/\ Outcome(o) = Outcome(rec.obsAlt)
@@ -127,7 +111,7 @@ B(x) == IF x THEN 1 ELSE 0
 InDom02(rec, f, o) ==
   /\ "alt" \in DOMAIN rec /\ "altInfo" \in DOMAIN rec /\ "obsAlt" \in DOMAIN rec
   /\ LET fa == Final(rec, rec.alt) IN
-     /\ Dom(f, o) /\ ~fa.grey /\ ~Crashed(rec.obsAlt) /\ Admissible(f, rec)
+     /\ Dom(f, o) /\ ~fa.grey /\ ~Crashed(rec.obsAlt) /\ Adm2(f, rec)
      /\ ~f.hmod /\ ~fa.hmod /\ f.role[rec.altInfo.pos] = "option" /\ fa.role[rec.altInfo.pos] = "option"
 
 JudgeWith(rec, f, o) ==
